@@ -16,6 +16,8 @@ import Mamba.Lemmas.CanonFGenMain
 import Mamba.Lemmas.CanonFIsoSpec
 import Mamba.Lemmas.CanonFClassInv
 import Mamba.Lemmas.CanonFTotal
+import Mamba.Lemmas.CanonFReuse
+import Mamba.Lemmas.CanonFReuseCaps
 import Mamba.Spec.Iso
 /-!
 # C01 / C02, pattern F — theorems about the faithful model of `graph/canonical.go` (`Mamba/Model/CanonF.lean`)
@@ -976,5 +978,74 @@ theorem canonF_generators_generate_total (g : G) (hg : g.WF) (hn : g.n ≠ 0) :
   obtain ⟨r, h⟩ := canonF_total g hg none trivial
   obtain ⟨gs, h1, h2⟩ := canonF_generators_generate _ g hg hn r h
   exact ⟨r, gs, h, h1, canonF_generators_sound _ g hg none trivial r h gs h1, h2⟩
+
+/-! ## (p) storage reuse (third clause of C02), semantic form
+
+`CanonicalIsomorphAllocated` called with a partition that has been `Reset` (arbitrary previous contents, sufficient capacity)
+and ANY storage of sufficient capacity (`StorageOK n m st`: arbitrary previous contents): the call returns, and its result
+describes the same canonical graph as the fresh call, the exact orbit partition and generators of the whole (class-
+preserving) automorphism group. What is NOT proved is that the returned slices are identical to those of the fresh call
+(`reuse_eq_fresh` proper: a relational proof through the whole model; decided by the `histf` correspondence stream). -/
+
+/-- `reuse_semantic` -/
+theorem reuse_semantic (g : G) (hg : g.WF) (vc : Classes) (hvc : ClassesOK g.n vc) (hn : g.n ≠ 0) (op : OP)
+    (c1 : g.n ≤ op.order.data.size) (c2 : g.n ≤ op.inCell.data.size) (c3 : g.n ≤ op.binDividers.data.size)
+    (c4 : g.n ≤ op.binAges.data.size) (c5 : g.n ≤ op.binsToCheck.data.size)
+    (c6 : ((nbrsOf g).toList.map List.length).sum / 2 ≤ op.value.data.size) (st : Storage)
+    (hS : StorageOK g.n (((nbrsOf g).toList.map List.length).sum / 2) st) :
+    ∃ opN opR r opR' stR r0 p p0 ds gs,
+      newOrderedPartition g.n (((nbrsOf g).toList.map List.length).sum / 2) vc = .ok (some opN) ∧
+      reset op g.n (((nbrsOf g).toList.map List.length).sum / 2) vc = .ok opR ∧
+      canonicalIsomorphAllocated (fuelBound g.n) g.n (((nbrsOf g).toList.map List.length).sum / 2) (nbrsOf g) (some opR) st {}
+        = .ok (r, opR', stR) ∧
+      canonicalIsomorphFull (fuelBound g.n) g vc = .ok r0 ∧ r0.perm = some p0 ∧
+      r.perm = some p ∧ r.orbits = some ds ∧ r.gens = some gs ∧ p.Perm (List.range g.n) ∧ ds.length = g.n ∧
+      certPos (nbrsOf g) p g.n = certPos (nbrsOf g) p0 g.n ∧ g.induced p = g.induced p0 ∧
+      (∀ γ ∈ gs, IsAutL (nbrsOf g) g.n γ) ∧
+      (∀ a b, a < g.n → b < g.n → Disjoint.rep ds.toArray a = Disjoint.rep ds.toArray b →
+        Relation.EqvGen (fun x y => ∃ γ ∈ gs, γ[x]? = some y) a b) ∧
+      (∀ γ, IsAutL (nbrsOf g) g.n γ → (∀ v, v < g.n → cellOf opN (γ.getD v 0) = cellOf opN v) →
+        (∀ u, u < g.n → Disjoint.rep ds.toArray u = Disjoint.rep ds.toArray (γ.getD u 0)) ∧
+        GenBy (fun x => x ∈ gs) g.n γ) :=
+  reuse_semantic_full g hg vc hvc hn op c1 c2 c3 c4 c5 c6 st hS
+
+/-- fresh storage has sufficient capacity -/
+theorem newStorage_capacity (n m : Nat) : StorageOK n m (newStorage n m) := newStorage_ok n m
+
+/-- `allocated_total_any_storage`: the general search returns on every storage of sufficient capacity -/
+theorem allocated_total_any_storage {fuel n m : Nat} {nb : Nbrs}
+    {JA JN JS : List (Nat × Nat) → LS → Prop} {JM : List (Nat × Nat) → Bool → LS → Prop} (hJ : MainJ n m nb JA JN JS JM)
+    (hT : MainT n m nb JA JN JS JM) {op0 : OP} {st : Storage}
+    (hn : n ≠ 0) (hgen : m = 0 → op0.binDividers.len ≠ 1)
+    (hp : PartInv n op0) (ha : AgeInv op0) (hage : op0.age = 0) (hspl : op0.spl = 0) (hval : op0.value.len = 0)
+    (hvw : op0.value.WF) (hb0 : BtcInv op0)
+    (cBd : n ≤ op0.binDividers.data.size) (cAges : n ≤ op0.binAges.data.size) (cBtc : n ≤ op0.binsToCheck.data.size)
+    (hnbs : nb.size = n) (hnbr : ∀ (u : Nat) (l : List Nat), nb[u]? = some l → ∀ v ∈ l, v < n)
+    (hS : StorageOK n m st)
+    (hinit : ∀ s0, InitSt n m nb {} op0 s0 → CapInv n m s0 → JM [] false s0)
+    (hfuel : slots n 0 < fuel) :
+    ∃ x, canonicalIsomorphAllocated fuel n m nb (some op0) st {} = .ok x :=
+  allocated_total stablePerm expandValue_cert hJ hT hn hgen hp ha hage hspl hval hvw hb0 cBd cAges cBtc hnbs hnbr hS hinit
+    hfuel
+
+/-- `reuse_keeps_capacity`: a run never shrinks the backing arrays of the storage and of the partition, so a storage /
+partition pair allocated for `(N, M)` stays usable (`StorageOK N M`) along every history of calls — general search -/
+theorem reuse_keeps_capacity {fuel n m : Nat} {nb : Nbrs} {op0 : OP} {st : Storage} {r : Res} {opR : Option OP}
+    {stR : Storage} (hn : n ≠ 0) (hgen : m = 0 → op0.binDividers.len ≠ 1) (hp : PartInv n op0) (ha : AgeInv op0)
+    (hage : op0.age = 0) (h : canonicalIsomorphAllocated fuel n m nb (some op0) st {} = .ok (r, opR, stR)) (N M : Nat)
+    (hS : StorageOK N M st)
+    (c3 : N ≤ op0.binDividers.data.size) (c4 : N ≤ op0.binAges.data.size) (c5 : N ≤ op0.binsToCheck.data.size)
+    (c1 : N ≤ op0.order.data.size) (c2 : N ≤ op0.inCell.data.size) (c6 : M ≤ op0.value.data.size) :
+    StorageOK N M stR ∧ ∃ op', opR = some op' ∧ N ≤ op'.order.data.size ∧ N ≤ op'.inCell.data.size ∧
+      N ≤ op'.binDividers.data.size ∧ N ≤ op'.binAges.data.size ∧ N ≤ op'.binsToCheck.data.size ∧
+      M ≤ op'.value.data.size :=
+  allocated_keeps_caps hn hgen hp ha hage h N M hS c3 c4 c5 c1 c2 c6
+
+/-- … and the `m == 0` shortcut (the partition is returned untouched) -/
+theorem reuse_keeps_capacity_shortcut {fuel n m : Nat} {nb : Nbrs} {op0 : OP} {st : Storage} {r : Res} {opR : Option OP}
+    {stR : Storage} (hn : n ≠ 0) (hm : m = 0) (hb : op0.binDividers.len = 1)
+    (h : canonicalIsomorphAllocated fuel n m nb (some op0) st {} = .ok (r, opR, stR)) (N M : Nat)
+    (hS : StorageOK N M st) : StorageOK N M stR ∧ opR = some op0 :=
+  allocated_keeps_caps_short hn hm hb h N M hS
 
 end C01F
